@@ -170,6 +170,15 @@ def h_desired(env, ops, n, outcome, init, func_ops=None, control_kind=None, cana
         env.check_raises(lambda: b.simulate(circ, return_statevector=True, desired_meas_result=outcome, **kw),
                          f"conditioning on the impossible outcome string {outcome} is refused")
         return
+    if init and not canary and any(op[0] in ("cm", "cmf") for op in ops):
+        # the same circuit object simulated before from ANOTHER initial state for the same outcome string: what is recorded
+        # afterwards must belong to the latest run
+        chi = [R.C(1) / 2 * (1 if i % 3 else -1) for i in range(2 ** n)] if n == 2 else None
+        if chi is not None:
+            try:
+                b.simulate(circ, return_statevector=True, desired_meas_result=outcome, initial_statevector=as_array(env, chi))
+            except ValueError:
+                pass
     freqs, sv = b.simulate(circ, return_statevector=True, desired_meas_result=outcome, **kw)
     if canary:
         phi = [phi[0]] + [-x for x in phi[1:]]
@@ -387,18 +396,19 @@ def _first_meas(ops):
     return None
 
 
-def h_dm(env, ops, n):
+def h_dm(env, ops, n, init=False):
     """MEASURE gates, shots requested, outcomes not saved: density-matrix route; the distribution handed to the sampler is
     the unconditioned one: sum over outcome strings of |unnormalised branch amplitudes|^2"""
     from tangelo.linq import Circuit
     B = Builder(env)
     gates = B.gates(ops)
     circ = Circuit(gates, n_qubits=n)
-    psi = R.basis_state(n, 0)
+    psi = env.state(n, "psi", normalized=True) if init else R.basis_state(n, 0)
+    kw = dict(initial_statevector=as_array(env, psi)) if init else {}
     nm = sum(1 for op in ops if op[0] == "m")
     if env.symbolic:
         b = make_backend(env, n_shots=1)
-        freqs, _ = b.simulate(circ)
+        freqs, _ = b.simulate(circ, **kw)
         calls = b.cirq.sampler_calls
         env.check_true(len(calls) == 1 and calls[0]["kind"] == "density_matrix", "density-matrix sampler used once")
         probs = calls[0]["probs"]
@@ -410,9 +420,18 @@ def h_dm(env, ops, n):
         env.check_vec_eq(probs, want, "diagonal of the final density matrix == unconditioned outcome distribution")
         env.check_true(len(freqs) == 1 and len(list(freqs)[0]) == n, "one shot -> one key of register width")
     else:
-        b = make_backend(env, n_shots=100)
-        freqs, _ = b.simulate(circ)
+        b = make_backend(env, n_shots=(40000 if init else 100))
+        freqs, _ = b.simulate(circ, **kw)
         env.check_true(abs(sum(freqs.values()) - 1) < 1e-9, "frequencies sum to 1")
+        if init:
+            # replay only: 40000-shot histogram within 5 sigma of the unconditioned distribution from the supplied state
+            want = [0.0] * 2 ** n
+            for bits in itertools.product("01", repeat=nm):
+                phi, _ = run_branch(B, ops, n, psi, list(bits))
+                for i, a in enumerate(phi):
+                    want[i] += abs(complex(a)) ** 2
+            for i, p in enumerate(want):
+                env.check_le(abs(freqs.get(R.bitstring(i, n), 0.) - p), 0.015, "diagonal of the final density matrix == unconditioned outcome distribution")
 
 
 def h_collapse(env, n, qubit, result, order):
@@ -568,6 +587,8 @@ def shapes(tier, seed):
     for nm in ("m0", "m1-m0", "3q"):
         ops, n, _ = SHAPES1[nm]
         out.append(Shape(f"dm/{nm}", h_dm, dict(ops=ops, n=n), modules=MODS, max_paths=64))
+        if nm in ("m0", "m1-m0", "m-first"):
+            out.append(Shape(f"dm/{nm}/init", h_dm, dict(ops=ops, n=n, init=True), modules=MODS, max_paths=64))
     for n in ((2,) if tier == "quick" else (2, 3)):
         for q in range(n):
             for res in (0, 1):
